@@ -911,22 +911,8 @@ class C20(Check):
             if c["kind"] == "conc" and m[0] == o[0] and m[1] == o[1] and set(o[2]) <= set(m[2]) and o[2]:
                 # nondeterministic outcome: the implementation's finals must be among the model's
                 m = [m[0], m[1], list(o[2])]
-            if (c["kind"] == "seq" and c["srv"] == "http" and START_THREAD_FAIL in c["h"] and len(r) > 3
-                    and self.canon(o) == r[3] and self.canon(o) != m):
-                # the implementation does what the KNOWN bug variant of the model does (HttpServer.start without
-                # clean-up when Thread.start() fails): the finding is reported through `holds`, it is not a
-                # disagreement between model and code
-                m = r[3]
             res.append((c, o, m, common.names(r[1]), common.names(r[2]), r[3:]))
         return res
-
-    def match_known(self, entry, case, failed):
-        # HttpServer.start leaves the listening socket bound when Thread.start() raises
-        return (entry.get("id") == "D24" and isinstance(case, dict) and case.get("kind") == "seq"
-                and case.get("srv") == "http" and START_THREAD_FAIL in case.get("h", ())
-                and set(failed) <= {"failed_start_leaves_state", "stop_releases", "start_brings_up",
-                                    "no_call_raises_or_hangs", "requests_served_iff_running",
-                                    "start_raises_iff_it_fails", "state_stable_between_calls"})
 
     def line(self, c, obs):
         srv = 0 if c.get("srv") == "tftp" else 1
